@@ -173,13 +173,15 @@ type vxC05PKCase struct {
 	NCols int   `json:"ncols"` // bind columns the PREPARED response declares
 	NVals int   `json:"nvals"` // values the caller binds
 	PK    []int `json:"pk"`    // partition-key indexes (may point outside the columns)
+	NoMeta bool `json:"no_meta,omitempty"` // the bind metadata carries the no-metadata flag: a column count and no column specifications
 }
 
 func TestVxC05PKIndexes(t *testing.T) {
 	vx.Check(t, vx.Prop{ID: "C05", Part: "TestVxC05PKIndexes",
-		Rule: "a protocol 4/5 session with a token-aware policy prepares a statement; the node's PREPARED response declares 0..4 bind columns and 0..4 partition-key indexes drawn from in range, equal to the column count, 255, 32767 and 65535 (duplicates allowed); the caller binds 0..5 values and calls GetRoutingKey and Exec; oracle: both return (a value or an error) within the watchdog, nothing panics; non-trivial = an index outside the declared columns; distinct by the case",
+		Rule: "a protocol 2..5 session with a token-aware policy prepares a statement; the node's PREPARED response declares 0..4 bind columns (a quarter of the cases: with the no-metadata flag, i.e. a count without column specifications) and 0..4 partition-key indexes (protocol 4+) drawn from in range, equal to the column count, 255, 32767 and 65535 (duplicates allowed); the caller binds 0..5 values and calls GetRoutingKey and Exec; oracle: both return (a value or an error) within the watchdog, nothing panics; non-trivial = an index outside the declared columns; distinct by the case",
 		Draw: func(t *rapid.T) interface{} {
-			c := &vxC05PKCase{Proto: rapid.IntRange(4, 5).Draw(t, "proto"), NCols: rapid.IntRange(0, 4).Draw(t, "ncols"), NVals: rapid.IntRange(0, 5).Draw(t, "nvals")}
+			c := &vxC05PKCase{Proto: rapid.SampledFrom([]int{2, 3, 4, 4, 5, 5}).Draw(t, "proto"), NCols: rapid.IntRange(0, 4).Draw(t, "ncols"), NVals: rapid.IntRange(0, 5).Draw(t, "nvals"),
+				NoMeta: rapid.IntRange(0, 3).Draw(t, "nometa") == 0}
 			for i, n := 0, rapid.IntRange(0, 4).Draw(t, "npk"); i < n; i++ {
 				c.PK = append(c.PK, rapid.SampledFrom([]int{0, 1, 2, 3, c.NCols, c.NCols + 1, 255, 32767, 65535}).Draw(t, "pk"))
 			}
@@ -191,7 +193,7 @@ func TestVxC05PKIndexes(t *testing.T) {
 		New: func() interface{} { return &vxC05PKCase{} },
 		Run: func(ci interface{}, k *vstats.Case) error {
 			c := ci.(*vxC05PKCase)
-			if c.Proto < 4 || c.Proto > 5 || c.NCols < 0 || c.NCols > 8 || c.NVals < 0 || c.NVals > 8 || len(c.PK) > 8 {
+			if c.Proto < 2 || c.Proto > 5 || c.NCols < 0 || c.NCols > 8 || c.NVals < 0 || c.NVals > 8 || len(c.PK) > 8 {
 				return nil
 			}
 			outside := false
@@ -205,6 +207,10 @@ func TestVxC05PKIndexes(t *testing.T) {
 				k.NonTrivial()
 				k.Class("index outside the columns")
 			}
+			if c.NoMeta {
+				k.NonTrivial()
+				k.Class("bind metadata with the no-metadata flag")
+			}
 			cols := []cqlspec.Column{}
 			for i := 0; i < c.NCols; i++ {
 				cols = append(cols, cqlspec.Column{Keyspace: "ks1", Table: "t", Name: "c" + itoa(i), Type: cqlspec.Scalar(cqlspec.Int)})
@@ -213,7 +219,7 @@ func TestVxC05PKIndexes(t *testing.T) {
 			for _, n := range cl.Nodes() {
 				n.Handler = func(rc *vnode.ReqCtx) {
 					if rc.Req.Kind == "PREPARE" {
-						rc.Reply(&cqlspec.Response{Kind: "PREPARED", PreparedIDHex: "ab", Meta: &cqlspec.Metadata{Columns: cols, PKIndexes: c.PK, GlobalSpec: true, Keyspace: "ks1", Table: "t"},
+						rc.Reply(&cqlspec.Response{Kind: "PREPARED", PreparedIDHex: "ab", Meta: &cqlspec.Metadata{Columns: cols, PKIndexes: c.PK, GlobalSpec: true, Keyspace: "ks1", Table: "t", NoMetadata: c.NoMeta},
 							ResultMeta: &cqlspec.Metadata{Columns: []cqlspec.Column{}}})
 						return
 					}
